@@ -288,8 +288,26 @@ def run_old(case: dict, fault=None) -> dict:
 
     old_time = common.time
     common.time = FakeTime
-    kitty._stdout_write = lambda s: sys.stdout.write(s)
-    iterm2._stdout_write = lambda s: sys.stdout.write(s)
+    # the library binds `_stdout_write = sys.stdout.write` at import time (used by clear());
+    # draw() writes to the sys.stdout of the time of the call - anything that reaches the
+    # import-time stream during a draw went to the wrong place
+    # The one legitimate user during a draw is clear() (the per-frame delete of kitty
+    # animations); it is delivered to the capture as before.  Anything else that takes that
+    # route (e.g. the terminator of an interrupted transmission) is recorded as misdirected.
+    stale: list[str] = []
+
+    def import_time_stdout(s):
+        from . import lexer
+
+        st = lexer.lex(s)
+        only_deletes = bool(st.toks) and all(
+            t["k"] == "kitty" and st.gfx[t["x"]]["a"] == "d" for t in st.toks)
+        if not only_deletes:
+            stale.append(s)
+        return sys.stdout.write(s)
+
+    kitty._stdout_write = import_time_stdout
+    iterm2._stdout_write = import_time_stdout
     before = termios.tcgetattr(pty_slave())
     tell0, size0 = image.tell(), image.size
     outcome = "ok"
@@ -326,6 +344,7 @@ def run_old(case: dict, fault=None) -> dict:
         "state_same": image.tell() == tell0 and image.size == size0,
         "fired": rec.fired,
         "stale": False,
+        "stale_out": "".join(stale),
         "path": path,
     }
     image.close()
